@@ -89,6 +89,9 @@ func init() {
 		if len(args) > 0 && args[0] == "execnilinput" {
 			return childExecNilInput()
 		}
+		if len(args) > 0 && args[0] == "execkeyhandover" {
+			return childExecKeyAtHandover()
+		}
 		return prev(args)
 	}
 }
@@ -182,10 +185,69 @@ func execRestoreFailsThenSignal(out *scenOut, sig syscall.Signal) {
 	}
 }
 
+// childExecKeyAtHandover: a key arrives just before an Exec takes the terminal: the read loop
+// has read it and is blocked handing it to the (busy) event loop, so releasing the terminal
+// runs into its read-loop timeout and the old read loop outlives the release. Three execs in
+// a row must all work, every callback message arrive once, and input be read afterwards.
+func childExecKeyAtHandover() int {
+	ctl := newRecCtl()
+	pr, pw, err := os.Pipe()
+	if err != nil {
+		return 3
+	}
+	var ran int32
+	hold := make(chan struct{})
+	var held int32
+	filter := func(name string, m tea.Msg) tea.Msg {
+		if strings.HasPrefix(name, "exec") && atomic.CompareAndSwapInt32(&held, 0, 1) {
+			<-hold // the event loop is busy while the key is typed
+		}
+		return m
+	}
+	ctl.onUpdate = func(m tea.Msg, v int) tea.Cmd {
+		if u, ok := m.(userMsg); ok && u.Sender == 9 {
+			return tea.Exec(&fakeExec{run: func(f *fakeExec) error { atomic.AddInt32(&ran, 1); return nil }},
+				func(err error) tea.Msg { return execDoneMsg{Tag: fmt.Sprint(u.Seq), Err: err} })
+		}
+		return nil
+	}
+	run := startProgram(ctl, nil, tea.WithInput(pr), tea.WithoutSignalHandler(), loggingFilter(ctl, filter))
+	waitFor(2*time.Second, func() bool { return ctl.log.has("view-exit", "") })
+	go run.p.Send(userMsg{9, 0})
+	waitFor(2*time.Second, func() bool { return atomic.LoadInt32(&held) == 1 })
+	pw.Write([]byte("k"))
+	time.Sleep(60 * time.Millisecond) // the read loop has the key and waits for the event loop
+	close(hold)
+	ok := waitFor(5*time.Second, func() bool { return ctl.log.has("update-exit", "execdone:0") })
+	for k := 1; k <= 2 && ok; k++ {
+		time.Sleep(30 * time.Millisecond)
+		run.p.Send(userMsg{9, k})
+		ok = waitFor(5*time.Second, func() bool { return ctl.log.has("update-exit", fmt.Sprintf("execdone:%d", k)) })
+	}
+	pw.Write([]byte("z"))
+	okKey := waitFor(3*time.Second, func() bool { return ctl.log.count("update-enter", "key") >= 2 })
+	run.p.Quit()
+	ended := run.wait(3 * time.Second)
+	ups := strings.Join(updatesOf(ctl.log.snapshot()), ",")
+	if ok && okKey && ended && run.err == nil && atomic.LoadInt32(&ran) == 3 && strings.Count(ups, "execdone:") == 3 {
+		fmt.Println("EXEC-OK", ups)
+		return 0
+	}
+	fmt.Println("EXEC-BAD", ok, okKey, ended, run.err, atomic.LoadInt32(&ran), ups)
+	return 1
+}
+
 // execNilInput runs childExecNilInput in a child process (a failure kills the process).
 func execNilInput(out *scenOut) {
+	execChild(out, "execnilinput", "exec-nil-input", "two consecutive Execs in a program without input (WithInput(nil)), then a message, then quit",
+		"after an Exec in a program without input the program crashes / does not take the terminal back (the restore starts an input reader on a nil input)")
+	execChild(out, "execkeyhandover", "exec-key-at-handover", "a key typed just before the first of three consecutive Execs (the old read loop outlives the release), a key typed afterwards, then quit",
+		"consecutive Execs after a key arrived at the hand-over: the program crashes, a callback message is missing, or input is not read afterwards")
+}
+
+func execChild(out *scenOut, childName, key, desc, what string) {
 	self, _ := os.Executable()
-	cmd := exec.Command(self, "child", "execnilinput")
+	cmd := exec.Command(self, "child", childName)
 	cmd.Env = os.Environ()
 	var outb strings.Builder
 	cmd.Stdout = &outb
@@ -195,10 +257,9 @@ func execNilInput(out *scenOut) {
 	}
 	done := make(chan error, 1)
 	go func() { done <- cmd.Wait() }()
-	desc := "two consecutive Execs in a program without input (WithInput(nil)), then a message, then quit"
 	select {
 	case err := <-done:
-		out.record("exec-nil-input", desc)
+		out.record(key, desc)
 		if err != nil || !strings.Contains(outb.String(), "EXEC-OK") {
 			tail := outb.String()
 			if i := strings.Index(tail, "panic:"); i >= 0 {
@@ -207,16 +268,16 @@ func execNilInput(out *scenOut) {
 			if len(tail) > 500 {
 				tail = tail[:500]
 			}
-			f := finding{Class: "new", What: "after an Exec in a program without input the program crashes / does not take the terminal back (the restore starts an input reader on a nil input)",
+			f := finding{Class: "new", What: what,
 				Input: desc, Expected: "callback messages delivered, program keeps running, quits with nil", Observed: fmt.Sprint(err) + " :: " + strings.ReplaceAll(tail, "\n", " / ")}
 			for _, p := range []string{"C17", "C04", "C05"} {
 				f.Property = p
 				out.fail(f)
 			}
 		}
-	case <-time.After(15 * time.Second):
+	case <-time.After(30 * time.Second):
 		cmd.Process.Kill()
-		out.fail(finding{Property: "C17", Class: "new", What: "a program without input stalls after an Exec", Input: desc})
+		out.fail(finding{Property: "C17", Class: "new", What: "the program stalls: " + what, Input: desc})
 	}
 }
 
